@@ -167,7 +167,8 @@ def bounded(tier, seed, R):
             k = rnd.randint(1, 3)
             rngs = [tuple(tuple(rnd.choice(CELLS) for _ in range(c)) for _ in range(r)) for _ in range(k)]
             crits = [rnd.choice(CRITERIA) for _ in range(k)]
-            vals = tuple(tuple(rnd.choice([1, 2.5, -4, 10, 0, True, None, 'x']) for _ in range(c)) for _ in range(r))
+            vpool = [1, 2.5, -4, 10, 0, True, None, 'x'] + (['#N/A', '#DIV/0!'] if rnd.random() < 0.3 else [])
+            vals = tuple(tuple(rnd.choice(vpool) for _ in range(c)) for _ in range(r))
             nums = tuple(tuple(rnd.choice([1, 2.5, -4, 10, 0]) for _ in range(c)) for _ in range(r))
             pos = [(i, j) for i in range(r) for j in range(c)
                    if all(selected_full(crits[q], rngs[q][i][j]) for q in range(k))]
@@ -179,11 +180,14 @@ def bounded(tier, seed, R):
             R.guard('bounded/countifs', lambda: ST.countifs(*args) == len(pos), w)
             sel = [vals[i][j] for i, j in pos]
             keep = [v for v in sel if isinstance(v, (int, float))]
-            R.guard('bounded/sumifs', lambda: X.sumifs(vals, *args) == sum(keep), w)
+            # an error value in a selected cell of the aggregated range is the result (the first one, as for SUM);
+            # cells of any type never make the function fail
+            err = next((v for v in sel if isinstance(v, str) and v.startswith('#')), None)
+            R.guard('bounded/sumifs', lambda: X.sumifs(vals, *args) == (err if err else sum(keep)), w)
             R.guard('bounded/averageifs',
-                    lambda: ST.averageifs(vals, *args) == (sum(keep) / len(keep) if keep else DIV0), w)
-            R.guard('bounded/maxifs', lambda: ST.maxifs(vals, *args) == (max(keep) if keep else 0), w)
-            R.guard('bounded/minifs', lambda: ST.minifs(vals, *args) == (min(keep) if keep else 0), w)
+                    lambda: ST.averageifs(vals, *args) == (err if err else (sum(keep) / len(keep) if keep else DIV0)), w)
+            R.guard('bounded/maxifs', lambda: ST.maxifs(vals, *args) == (err if err else (max(keep) if keep else 0)), w)
+            R.guard('bounded/minifs', lambda: ST.minifs(vals, *args) == (err if err else (min(keep) if keep else 0)), w)
             # criteria commute
             rev = []
             for q in reversed(range(k)):
